@@ -4,7 +4,7 @@ import json, os, re, glob
 root = os.path.dirname(os.path.dirname(os.path.abspath(__file__)))
 res = {}
 for l in open(os.path.join(root, "seeded/RESULTS.txt")):
-    m = re.match(r"(C\d\d[a-e])\s+violations=(\d+) no-failing-input=(\d+)\s*(.*)", l)
+    m = re.match(r"(C\d\d[a-z])\s+violations=(\d+) no-failing-input=(\d+)\s*(.*)", l)
     if m:
         res[m.group(1)] = (int(m.group(2)), int(m.group(3)), m.group(4).strip())
 rows = ["| Seeded change | Needs, to manifest | Check | Result of the final machinery (quick tier) | History |", "|---|---|---|---|---|"]
